@@ -223,6 +223,16 @@ def impl(case):
         laws["replace_na"] = fill is None or (len(r) == len(v) and not any(bool(x) for x in r.is_na()) and
                                               all((pyeq(a, b) if not m else True) for a, b, m in zip(tl, rl, na)))
         laws["receiver_unchanged"] = [bool(x) for x in v.is_na()] == na
+        if case["dtype"] is None and "nan" in case["names"] and not any(n in NAT_NAMES for n in case["names"]):
+            # the two spellings of a missing element in a Python list, None and float NaN, denote the same thing: the same
+            # list with NaN written as None gives the same kind of vector, missing at the same positions
+            try:
+                v2 = di.Vector([None if n == "nan" else POOL[n] for n in case["names"]])
+                laws["nan_none_same"] = (dclass(v2) == res["dclass"] and [bool(x) for x in v2.is_na()] == na
+                                         and [x is None for x in v2.tolist()] == res["tolist_none"]) or \
+                    f"with NaN: {res['dclass']} {na}; with None: {dclass(v2)} {[bool(x) for x in v2.is_na()]}"
+            except Exception as e:
+                laws["nan_none_same"] = f"raises {type(e).__name__}: {e}"
     except Exception as e:
         res["law_err"] = f"{type(e).__name__}: {e}"
     res["laws"] = laws
